@@ -203,31 +203,63 @@ class Plugin:
                 return CaseInsensitiveDict(dict(its[:h]), **dict(its[h:]))
             return CaseInsensitiveDict(d)
 
+        # The Mapping interface of one object: the views keys() / items() / values() speak about the same map as the
+        # object itself, whenever they were taken.  Each observation below is accepted only if the views taken when the
+        # variable was bound (held) and fresh ones agree with it; otherwise the step reads as ["unbound"], which no run
+        # of the specification produces.
+        held = {}
+
+        def views_agree(name, d, kind, arg, ans):
+            try:
+                vs = [(d.keys(), d.items(), d.values())] + ([held[name]] if name in held and held[name][3] is d else [])
+                for ks, its, vals in [v[:3] for v in vs]:
+                    if kind == "contains":
+                        if (arg in ks) != ans:
+                            return False
+                        if ans and ((arg, d[arg]) in its) is not True:
+                            return False
+                    elif kind == "get":
+                        if (arg in ks) is not True or ((arg, ans) in its) is not True or ans not in list(vals):
+                            return False
+                    elif kind == "len":
+                        if not (len(ks) == len(its) == len(vals) == ans):
+                            return False
+                    elif kind == "iter":
+                        if list(ks) != ans or [k for k, _ in its] != ans or list(vals) != [d[k] for k in ans]:
+                            return False
+                return True
+            except Exception:  # noqa: BLE001
+                return False
+
+        def bind(name, d):
+            env[name] = d
+            held[name] = (d.keys(), d.items(), d.values(), d)
+
         for op in case:
             kind = op[0]
             try:
                 if kind == "new":
-                    env[op[1]] = construct(op[2], op[3])
+                    bind(op[1], construct(op[2], op[3]))
                     obs.append(["done"])
                 elif kind == "newfrom":
                     if op[2] not in env:
                         obs.append(["unbound"]); continue
-                    env[op[1]] = CaseInsensitiveDict(env[op[2]])
+                    bind(op[1], CaseInsensitiveDict(env[op[2]]))
                     obs.append(["done"])
                 elif kind == "copy":
                     if op[2] not in env:
                         obs.append(["unbound"]); continue
-                    env[op[1]] = env[op[2]].copy()
+                    bind(op[1], env[op[2]].copy())
                     obs.append(["done"])
                 elif kind == "combine":
                     if op[2] not in env or op[3] not in env:
                         obs.append(["unbound"]); continue
-                    env[op[1]] = env[op[2]].combine(env[op[3]])
+                    bind(op[1], env[op[2]].combine(env[op[3]]))
                     obs.append(["done"])
                 elif kind == "combinelower":
                     if op[2] not in env:
                         obs.append(["unbound"]); continue
-                    env[op[1]] = env[op[2]].combine_lower_dict({lowerstr(k): v for k, v in op[3]})
+                    bind(op[1], env[op[2]].combine_lower_dict({lowerstr(k): v for k, v in op[3]}))
                     obs.append(["done"])
                 elif kind == "replace":
                     if op[1] not in env or op[2] not in env:
@@ -253,16 +285,20 @@ class Plugin:
                     elif kind == "pop":
                         obs.append(["val", d.pop(op[2])])
                     elif kind == "get":
-                        obs.append(["val", d[op[2]]])
+                        x = d[op[2]]
+                        obs.append(["val", x] if views_agree(op[1], d, "get", op[2], x) else ["unbound"])
                     elif kind == "getlower":
                         x = d.get_lower(op[2], "DEFAULT")
                         obs.append(["default"] if x == "DEFAULT" else ["val", x])
                     elif kind == "contains":
-                        obs.append(["bool", op[2] in d])
+                        x = op[2] in d
+                        obs.append(["bool", x] if views_agree(op[1], d, "contains", op[2], x) else ["unbound"])
                     elif kind == "len":
-                        obs.append(["nat", len(d)])
+                        x = len(d)
+                        obs.append(["nat", x] if views_agree(op[1], d, "len", None, x) else ["unbound"])
                     elif kind == "iter":
-                        obs.append(["keys", list(d)])
+                        x = list(d)
+                        obs.append(["keys", x] if views_agree(op[1], d, "iter", None, x) else ["unbound"])
                     elif kind == "aslower":
                         obs.append(["items", [[k, v] for k, v in d.as_lower_dict().items()]])
                     elif kind == "eq":
